@@ -1,2 +1,5 @@
 import STProofs.PPolyCache
+import STProofs.PPolyCacheAny
 /-! # C11 — lazy caches and copies never serve stale data -/
+/-! `AnyNum.eval_after_history` / `AnyNum.eval_after_history_float`: the same theorem for every scalar type that carries the
+model's operations (no law of arithmetic is used), hence for IEEE doubles: a reused object answers *bit for bit* like a fresh one. -/
